@@ -1,7 +1,7 @@
 """Configuration of ./check C19 (see pylib/props.py)."""
 CFG = dict(
         coq=["props/C19.vo"],
-        tie=["gen/Tie_C19.vo", "gen/Tie_Code_Slices.vo"],
+        tie=["gen/Tie_C19.vo", "gen/Tie_Code_Slices.vo", "gen/Tie_Code_StrListSeek.vo", "gen/Tie_Code_Cols.vo"],
         model_vo=["model/Sorter.vo", "model/SorterSpec.vo"],
         extract="Ex_C19",
         level_text="Theorems C19_blocks / C19_rows: for every row list, every run size (and, in the _any_partition forms, every "
